@@ -81,6 +81,15 @@ impl<'a> Toks<'a> {
         unhexs(self.next()?)
     }
 
+    /// The next token as a string if there is one.
+    pub fn opt_str(&mut self) -> Result<Option<String>, String> {
+        match self.it.next() {
+            None => Ok(None),
+            Some(t) if !t.is_empty() => unhexs(t).map(Some),
+            Some(_) => Err(format!("empty token in line '{}'", self.line)),
+        }
+    }
+
     pub fn bytes(&mut self) -> Result<Vec<u8>, String> {
         unhex(self.next()?)
     }
